@@ -54,6 +54,26 @@ struct IntermediateRep;
 }  // namespace detail
 
 // QuantityPoint implementation and API elaboration.
+namespace detail {
+// Whether a `QuantityPoint<TargetUnit, TargetRep>` can be _implicitly_ constructed from a
+// `QuantityPoint<SourceUnit, SourceRep>`.
+//
+// Units of different dimensions are never convertible.  We must check this first, because the
+// origin displacement between such units is not even well formed (and asking this question, e.g.,
+// via `std::is_convertible`, must never be a hard error).
+template <typename TargetUnit,
+          typename TargetRep,
+          typename SourceUnit,
+          typename SourceRep,
+          bool SameDimension = HasSameDimension<TargetUnit, SourceUnit>::value>
+struct IsPointImplicitlyConstructibleFrom : std::false_type {};
+template <typename TargetUnit, typename TargetRep, typename SourceUnit, typename SourceRep>
+struct IsPointImplicitlyConstructibleFrom<TargetUnit, TargetRep, SourceUnit, SourceRep, true>
+    : std::is_convertible<decltype(std::declval<Quantity<SourceUnit, SourceRep>>() +
+                                   origin_displacement(TargetUnit{}, SourceUnit{})),
+                          Quantity<TargetUnit, TargetRep>> {};
+}  // namespace detail
+
 template <typename UnitT, typename RepT>
 class QuantityPoint {
     // Q: When should we enable IMPLICIT construction from another QuantityPoint type?
@@ -72,10 +92,7 @@ class QuantityPoint {
     //      OK : QuantityPoint<Celsius, int> -> QuantityPoint<Milli<Kelvins>, int>
     template <typename OtherUnit, typename OtherRep>
     static constexpr bool should_enable_implicit_construction_from() {
-        return std::is_convertible<
-            decltype(std::declval<typename QuantityPoint<OtherUnit, OtherRep>::Diff>() +
-                     origin_displacement(UnitT{}, OtherUnit{})),
-            QuantityPoint::Diff>::value;
+        return detail::IsPointImplicitlyConstructibleFrom<UnitT, RepT, OtherUnit, OtherRep>::value;
     }
 
     // This machinery exists to give us a conditionally explicit constructor, using SFINAE to select
